@@ -353,6 +353,7 @@ func runC16(c *Ctx) {
 		// goroutines started (with `go`) from the handler or its helpers: a function literal or
 		// a named function; everything else reachable as a single-call-site helper is body
 		goFns := map[*ssa.Function]bool{}
+		goSites := map[*ssa.Function][]*ssa.Go{}
 		for _, f := range w.helpersOf(h) {
 			w.eachInstr(f, func(in ssa.Instruction) {
 				g, ok := in.(*ssa.Go)
@@ -363,6 +364,7 @@ func runC16(c *Ctx) {
 					goFns[w.closureBody(mc)] = true
 				} else if cal := g.Call.StaticCallee(); cal != nil && w.IsMod[cal] {
 					goFns[cal] = true
+					goSites[cal] = append(goSites[cal], g)
 				}
 			})
 		}
@@ -389,12 +391,31 @@ func runC16(c *Ctx) {
 			}
 		}
 		for _, gf := range sortedFns(goFns) {
-			w.eachInstrDeep(gf, func(in ssa.Instruction) {
-				if call, ok := in.(*ssa.Call); ok && call.Call.StaticCallee() != nil && call.Call.StaticCallee().String() == "io.Copy" {
-					copies = append(copies, cp{connRole(w, call.Call.Args[0], tcpGet), connRole(w, call.Call.Args[1], tcpGet)})
-					inGo++
+			// one goroutine function started several times (go copy(dst, src) twice): each
+			// start is its own copy, with the parameters standing for that start's arguments
+			sites := goSites[gf]
+			if len(sites) <= 1 {
+				sites = []*ssa.Go{nil}
+			}
+			for _, site := range sites {
+				arg := func(v ssa.Value) ssa.Value {
+					if site == nil {
+						return v
+					}
+					if p := rawParamOf(v, gf); p != nil {
+						if i := paramIndex(p); i >= 0 && i < len(site.Call.Args) {
+							return site.Call.Args[i]
+						}
+					}
+					return v
 				}
-			})
+				w.eachInstrDeep(gf, func(in ssa.Instruction) {
+					if call, ok := in.(*ssa.Call); ok && call.Call.StaticCallee() != nil && call.Call.StaticCallee().String() == "io.Copy" {
+						copies = append(copies, cp{connRole(w, arg(call.Call.Args[0]), tcpGet), connRole(w, arg(call.Call.Args[1]), tcpGet)})
+						inGo++
+					}
+				})
+			}
 		}
 		c.Anchor("C16.6", "two directions")
 		if len(copies) == 2 && inGo == 2 && copies[0].dst == copies[1].src && copies[0].src == copies[1].dst && copies[0].dst != copies[0].src &&
